@@ -313,6 +313,58 @@ func VfC02_ReplaceDuringRedirect() {
 	close(u.quit)
 }
 
+// VfC07_RefreshReachesLiveHost: the seed host that answered an earlier refresh goes away while
+// another seed stays alive, then the layout changes. Routing can only converge if some later
+// refresh round asks the live host: that possibility must exist (the choice of the host is
+// random; "possible" is decided over all values of the random source: must_reach).
+func VfC07_RefreshReachesLiveHost() {
+	x, y := "10.0.0.1:7000", "10.0.0.2:7000"
+	u, clients := vfNewUpstream(nil, x, y)
+	text := "idA 10.0.1.1:7000@17000 myself,master - 0 0 1 connected 0-16383\n"
+	round := func() (asked string, err error) {
+		done := make(chan error, 1)
+		go func() { done <- u.doSlotsRefresh() }()
+		nd.Quiesce()
+		for _, a := range []string{x, y} {
+			if c := clients[a]; c != nil {
+				if rq := vfTake(c); rq != nil {
+					asked = a
+					rq.SetResponse(newBulkString(text))
+				}
+			}
+		}
+		nd.Quiesce()
+		select {
+		case err = <-done:
+		default:
+			nd.Assert(false, "a refresh round ends")
+		}
+		return
+	}
+	nd.PanicLabel("refresh-rounds")
+	first, err := round()
+	nd.Assert(err == nil && first != "", "the first round is answered by one of the seed hosts")
+	if first == "" {
+		return
+	}
+	// that host goes away (connection lost, connecting refused); the other one stays
+	u.removeClient(first)
+	clients[first] = nil
+	live := x
+	if first == x {
+		live = y
+	}
+	for r := 0; r < nd.Param("rounds", 3); r++ {
+		asked, err := round()
+		if asked == live {
+			nd.Assert(err == nil, "a round answered by the live host succeeds")
+			nd.Cover("asked-the-live-host")
+			return
+		}
+		nd.Assert(err != nil, "a round that could only ask the dead host fails (and is retried)")
+	}
+}
+
 // VfC07_ConcurrentCallers: two requests for a backend without a connection arrive at the same
 // time: at most one connect attempt is in flight per address, both callers get the same live
 // connection (or the current connect error), nobody is parked.
